@@ -23,8 +23,6 @@ mutual
 def ConstValue.depth : ConstValue → Nat
   | .list xs => ConstValue.depthList xs + 1
   | .map kvs => ConstValue.depthPairs kvs + 1
-  | .int n => if n < 0 then 1 else 0
-  | .double t => t.length
   | _ => 0
 def ConstValue.depthList : List ConstValue → Nat
   | [] => 0
@@ -136,13 +134,13 @@ theorem sepChar_not_lower_e (c : Char) (h : isSepChar c = true) : lowerEq c 'e' 
   rcases isSepChar_cases h with h | h | h | h | h | h | h | h | h | h | h | h | h | h | h | h | h | h | h | h <;> subst h <;> decide
 
 /-- the alternatives of `DoubleConstant::parse` after the optional signs -/
-def doubleBody (d : Nat) : P Unit := alt [
-  (andThen digit1 fun _ => andThen (tag ['.']) fun _ => andThen (opt digit1) fun _ => andThen (opt (exponent d)) fun _ => ret ()),
-  (andThen (opt digit1) fun _ => andThen (tag ['.']) fun _ => andThen digit1 fun _ => andThen (opt (exponent d)) fun _ => ret ()),
-  (andThen digit1 fun _ => andThen (tagNoCase ['e']) fun _ => andThen (IntConstant.parse d) fun _ => ret ())]
+def doubleBody : P Unit := alt [
+  (andThen digit1 fun _ => andThen (tag ['.']) fun _ => andThen (opt digit1) fun _ => andThen (opt exponent) fun _ => ret ()),
+  (andThen (opt digit1) fun _ => andThen (tag ['.']) fun _ => andThen digit1 fun _ => andThen (opt exponent) fun _ => ret ()),
+  (andThen digit1 fun _ => andThen (tagNoCase ['e']) fun _ => andThen IntConstant.parse fun _ => ret ())]
 
-theorem doubleBody_err_digits (d : Nat) {ds r : List Char} (hne : ds ≠ []) (hd : ∀ c ∈ ds, isDecDigit c = true) (hr : Sep r) :
-    doubleBody d (ds ++ r) = .err := by
+theorem doubleBody_err_digits {ds r : List Char} (hne : ds ≠ []) (hd : ∀ c ∈ ds, isDecDigit c = true) (hr : Sep r) :
+    doubleBody (ds ++ r) = .err := by
   have h1 := digit1_rt hne hd hr.noDigit
   have hdot : tag ['.'] r = .err := tag_hd (sep_not (f := fun c => c == '.') (by
     intro c hc; rcases isSepChar_cases hc with h | h | h | h | h | h | h | h | h | h | h | h | h | h | h | h | h | h | h | h <;> subst h <;> decide) hr |>
@@ -154,8 +152,8 @@ theorem doubleBody_err_digits (d : Nat) {ds r : List Char} (hne : ds ≠ []) (hd
     alt_cons_of_err (by rw [andThen_of_ok h1]; exact andThen_of_err he)]
   rfl
 
-theorem doubleBody_err_hd (d : Nat) {r : List Char} (h1 : hdP (fun c => !isDecDigit c) r = true)
-    (h2 : hdP (fun c => c != '.') r = true) : doubleBody d r = .err := by
+theorem doubleBody_err_hd {r : List Char} (h1 : hdP (fun c => !isDecDigit c) r = true)
+    (h2 : hdP (fun c => c != '.') r = true) : doubleBody r = .err := by
   have hd := digit1_err_hd h1
   unfold doubleBody
   rw [alt_cons_of_err (andThen_of_err hd),
@@ -163,41 +161,41 @@ theorem doubleBody_err_hd (d : Nat) {r : List Char} (h1 : hdP (fun c => !isDecDi
     alt_cons_of_err (andThen_of_err hd)]
   rfl
 
-theorem double_of_body (d : Nat) (s : List Char) : DoubleConstant.parse d s =
-    mapRes (recognize (andThen (opt (tag ['-'])) fun _ => andThen (opt (tag ['+'])) fun _ => doubleBody d)) (fun t => some t) s := rfl
+theorem double_of_body (s : List Char) : DoubleConstant.parse s =
+    mapRes (recognize (andThen (opt (tag ['-'])) fun _ => andThen (opt (tag ['+'])) fun _ => doubleBody)) (fun t => some t) s := rfl
 
-theorem double_err_of_body {d : Nat} {s s1 s2 : List Char} {a b}
-    (h1 : opt (tag ['-']) s = .ok a s1) (h2 : opt (tag ['+']) s1 = .ok b s2) (h3 : doubleBody d s2 = .err) :
-    DoubleConstant.parse d s = .err := by
+theorem double_err_of_body {s s1 s2 : List Char} {a b}
+    (h1 : opt (tag ['-']) s = .ok a s1) (h2 : opt (tag ['+']) s1 = .ok b s2) (h3 : doubleBody s2 = .err) :
+    DoubleConstant.parse s = .err := by
   rw [double_of_body]
-  have : (andThen (opt (tag ['-'])) fun _ => andThen (opt (tag ['+'])) fun _ => doubleBody d) s = .err := by
+  have : (andThen (opt (tag ['-'])) fun _ => andThen (opt (tag ['+'])) fun _ => doubleBody) s = .err := by
     rw [andThen_of_ok h1, andThen_of_ok h2]; exact h3
   simp [mapRes, recognize, this, PR.bind]
 
 /-- `Double` is tried before `Int`: it must fail on the decimal spelling of an integer -/
-theorem double_err_int (d : Nat) {n : Int} {r : List Char} (hr : Sep r) : DoubleConstant.parse d (intText n ++ r) = .err := by
+theorem double_err_int {n : Int} {r : List Char} (hr : Sep r) : DoubleConstant.parse (intText n ++ r) = .err := by
   unfold intText
   split
   · obtain ⟨h1, h2, _⟩ := decDigits_spec (-n).toNat
     obtain ⟨c, cs, e, hc⟩ := decDigits_head (-n).toNat
     have hplus : tag ['+'] (decDigits (-n).toNat ++ r) = .err := by
       rw [e]; exact tag_cons_ne (by intro h; subst h; revert hc; decide)
-    exact double_err_of_body (opt_of_ok (tag_append ['-'] _)) (opt_of_err hplus) (doubleBody_err_digits d h1 h2 hr)
+    exact double_err_of_body (opt_of_ok (tag_append ['-'] _)) (opt_of_err hplus) (doubleBody_err_digits h1 h2 hr)
   · obtain ⟨h1, h2, _⟩ := decDigits_spec n.toNat
     obtain ⟨c, cs, e, hc⟩ := decDigits_head n.toNat
     have hplus : tag ['+'] (decDigits n.toNat ++ r) = .err := by
       rw [e]; exact tag_cons_ne (by intro h; subst h; revert hc; decide)
-    exact double_err_of_body (opt_of_err (digits_no_minus h2 h1)) (opt_of_err hplus) (doubleBody_err_digits d h1 h2 hr)
+    exact double_err_of_body (opt_of_err (digits_no_minus h2 h1)) (opt_of_err hplus) (doubleBody_err_digits h1 h2 hr)
 
-theorem double_err_hd (d : Nat) {r : List Char} (h0 : hdP (fun c => c != '-' && c != '+') r = true)
+theorem double_err_hd {r : List Char} (h0 : hdP (fun c => c != '-' && c != '+') r = true)
     (h1 : hdP (fun c => !isDecDigit c) r = true) (h2 : hdP (fun c => c != '.') r = true) :
-    DoubleConstant.parse d r = .err := by
+    DoubleConstant.parse r = .err := by
   have hm : tag ['-'] r = .err := tag_hd (hdP_mono (by intro c hc; simp at hc ⊢; exact hc.1) h0)
   have hp : tag ['+'] r = .err := tag_hd (hdP_mono (by intro c hc; simp at hc ⊢; exact hc.2) h0)
-  exact double_err_of_body (opt_of_err hm) (opt_of_err hp) (doubleBody_err_hd d h1 h2)
+  exact double_err_of_body (opt_of_err hm) (opt_of_err hp) (doubleBody_err_hd h1 h2)
 
-theorem int_err_hd (d : Nat) {r : List Char} (h0 : hdP (fun c => c != '-') r = true)
-    (h1 : hdP (fun c => !isDecDigit c) r = true) : IntConstant.parse (d + 1) r = .err := by
+theorem int_err_hd {r : List Char} (h0 : hdP (fun c => c != '-') r = true)
+    (h1 : hdP (fun c => !isDecDigit c) r = true) : IntConstant.parse r = .err := by
   have hd := digit1_err_hd h1
   have h0x : tag ['0', 'x'] r = .err := by
     cases r with
@@ -205,8 +203,12 @@ theorem int_err_hd (d : Nat) {r : List Char} (h0 : hdP (fun c => c != '-') r = t
     | cons c x =>
       simp only [hdP_cons, Bool.not_eq_true'] at h1
       exact tag_cons_ne (by intro e; subst e; revert h1; decide)
+  have hu : IntConstant.unsigned r = .err := by
+    unfold IntConstant.unsigned
+    rw [alt_cons_of_err (skip_of_err h0x)]
+    simp [alt, mapRes, hd, PR.bind]
   unfold IntConstant.parse
-  rw [alt_cons_of_err (skip_of_err (tag_hd h0)), alt_cons_of_err (skip_of_err h0x)]
-  simp [alt, mapRes, hd, PR.bind]
+  rw [alt_cons_of_err (skip_of_err (tag_hd h0)), alt_cons_of_err hu]
+  rfl
 
 end Pilota.Idl
